@@ -23,9 +23,10 @@ RDF_LANGSTRING = RDF + "langString"
 RDF_TYPE = RDF + "type"
 
 WALL_SECONDS = 2            # signal.alarm around every reader call (a timeout is the result "hang")
-CPU_SECONDS = 0.02          # additional ITIMER_PROF (CPU time of the process) around N-Triples lines: both known
-#                             non-termination shapes are busy loops, a line normally takes ~20 microseconds; every
-#                             reported hang is confirmed again under the plain 2 s alarm (readers.py:_confirm_work)
+CPU_SECONDS = 0.02          # additional ITIMER_PROF (CPU time of the process) around N-Triples lines: a line normally
+#                             takes ~20 microseconds and the non-termination shapes seen so far are busy loops.  An expiry
+#                             counts as a hang only after the plain 2 s alarm has confirmed hangs of the same root-cause
+#                             category (readers.py:_read_line), and every reported reproducer is run again under that alarm.
 
 
 # ------------------------------------------------------------------------------------------------
@@ -156,7 +157,7 @@ P_DEFAULT = "http://ex.org/p"
 SEPS = [" ", "\t", "  "]                # between subject / predicate / object
 PRE_DOT = [" ", "", "\t"]               # between the object and the final dot
 COMMENTS = ["", " # c"]                 # trailing comment (after the dot) of the literal sweeps
-ODD_COMMENTS = ["# 100%", "# a^^b", "# \"q\""]    # trailing comments with literal-like characters (node sweep only)
+ODD_COMMENTS = ["# 100%", "# a^^b", "# \"q\"", "# a@b"]    # trailing comments with literal-like characters (node sweep only)
 DEFAULT_LAYOUT = (" ", " ", " ", "")
 
 
@@ -261,17 +262,22 @@ _RDFLIB_UNQUOTE_QUIRK = re.compile(r"\\\\[tnrbf'uU]")
 def nt_features(case):
     s, p, o, sep1, sep2, sep3, comment = case
     f = set()
-    if s[0] == "B" and sep1[:1] != " ":
-        f.add("bnode-subject-not-followed-by-space")
-    nxt = (sep3 + ".")[:1]
-    if o[0] == "B" and nxt != " ":
-        f.add("no-space-after-object")
+    if s[0] == "B" and sep1[:1] == "\t":
+        f.add("bnode-subject-followed-by-tab")
+    glued = (sep3 == "")                               # the final dot touches the object token
+    if o[0] == "B" and glued:
+        f.add("dot-glued-to-object")
+    if o[0] == "B" and sep3[:1] == "\t":
+        f.add("tab-after-object")
     if o[0] == "L":
         lex, kind = o[1], o[2]
         f.add(kind)
-        # the tokenizer takes its 'typed' branch (end of token = next U+0020) iff '^^' occurs in the rest of the line
-        if (kind in ("dt", "lang") or "^^" in lex) and nxt != " ":
-            f.add("no-space-after-object")
+        # tokens of these kinds end at the next blank / tab / end of line (minus a line-final dot)
+        if kind in ("dt", "lang") or "^^" in lex:
+            if glued:
+                f.add("dot-glued-to-object")
+            if sep3[:1] == "\t":
+                f.add("tab-after-object")
         if "^^" in lex:
             f.add("caret-in-lex")
             if " " in lex[lex.find("^^"):]:
@@ -280,42 +286,49 @@ def nt_features(case):
             f.add("quote-then-caret")
         if _ODD_BS_QUOTE.search(lex):
             f.add("escaped-backslash-then-escaped-quote")
+        if '\\"' in lex:
+            f.add("escaped-quote")
         if any(x in lex for x in PREFIX_LIKE):
             f.add("prefix-like-in-lex")
         if kind == "dt" and any(x in o[3] for x in PREFIX_LIKE):
             f.add("prefix-like-in-datatype-iri")
-        if "%" in comment or "^^" in comment or '"' in comment:
+        if any(x in comment for x in ("%", "^^", '"', "@")):
             f.add("odd-comment")
+    if comment:
+        f.add("comment")
     return f
 
 
-def _nt_cause(f):
-    """Root cause (category, detail) of a deviation in which the line was cut into the wrong tokens."""
-    if "no-space-after-object" in f:
-        return ("hang", "no-space-after-object")
+# root-cause categories of C06, in the order in which features claim a deviation of the tokenizer
+def _nt_token_cause(f):
+    """Root-cause category of a deviation in which the line was cut into the wrong tokens (or None)."""
+    if "dot-glued-to-object" in f and "comment" in f:
+        return "dot-glued-to-object-before-comment"
+    if "dot-glued-to-object" in f:
+        return "no-space-after-object"
+    if "tab-after-object" in f:
+        return "no-space-after-object"
     if "odd-comment" in f:
-        return ("hang", "trailing-comment-scanned-as-literal")
-    if "bnode-subject-not-followed-by-space" in f:
-        return ("separator", "blank-node-subject-not-followed-by-space")
+        return "trailing-comment-scanned-as-literal"
+    if "bnode-subject-followed-by-tab" in f:
+        return "blank-node-subject-followed-by-tab"
     if "caret-then-space-in-lex" in f:
-        return ("tokenizer", "caret-caret-then-space-inside-lexical-form")
-    if "escaped-backslash-then-escaped-quote" in f and "caret-in-lex" not in f and "dt" not in f:
-        return ("escape", "escaped-backslash-then-escaped-quote")
+        return "caret-caret-then-space-inside-lexical-form"
+    if "escaped-backslash-then-escaped-quote" in f and "plain" in f and "caret-in-lex" not in f:
+        return "escaped-backslash-then-escaped-quote"
     if "quote-then-caret" in f:
-        return ("escape", "quote-then-caret-caret-in-lexical-form")
+        return "quote-then-caret-caret-in-lexical-form"
+    if "caret-in-lex" in f and ("plain" in f or "lang" in f):
+        return "caret-caret-in-plain-literal"
     return None
 
 
-def nt_known_shape(case):
-    """Does the line carry a feature that is known to confuse the tokenizer?  (Then a CPU-timer expiry is
-    taken as a hang at once; otherwise the line is run again under the plain wall-clock alarm.)"""
-    return _nt_cause(nt_features(case)) is not None
-
-
 def nt_classify(case, outcome):
-    """-> [(key, symptom)] : every deviation of one line from its oracle, attributed to a root cause.
-    The attribution looks at the symptom (which field differs, how) and at the features of the input that
-    trigger each known defect; what matches no rule lands in an '...:other' key (the finding shows the line)."""
+    """-> [(root-cause category, symptom class, description)]: every deviation of one line from its oracle.
+    key = "C06:<category>:<symptom class>".  Symptom classes: hang | raise:<ExceptionType> | statement-dropped |
+    extra-triple | wrong-node | wrong-content | wrong-datatype | error-count.  A non-termination therefore never
+    shares a key with any other symptom.  The category is derived from the features of the input that trigger
+    each known defect and from which field deviates; what no rule claims gets the category 'other'."""
     exp = nt_expected(case)
     f = nt_features(case)
     o = case[2]
@@ -324,68 +337,92 @@ def nt_classify(case, outcome):
         rows, errors = outcome[1]
         if rows == [exp] and errors == 0:
             return []
-    cause = _nt_cause(f)
-
-    def key(symptom_category):
-        if cause is None:
-            return "C06:%s:other" % symptom_category
-        if symptom_category == "hang":                # every hang shape has its own C06:hang:<shape> key
-            if cause[0] in ("escape", "tokenizer"):
-                # the literal is cut short and its remainder is scanned as further tokens: a '<' without a later '>',
-                # or a '_' / digit without a later U+0020, never advances
-                return "C06:hang:remainder-of-mis-tokenised-literal"
-            return "C06:hang:" + cause[1]
-        return "C06:%s:%s" % cause
-
+    tok = _nt_token_cause(f)
     if st == "hang":
-        return [(key("hang"), "hang")]
+        return [(tok or "other", "hang", "hang")]
     if st == "raise":
-        k = key("raise")
-        if cause is None:
-            k = "C06:raise:%s-in-%s" % (outcome[1], outcome[2])
-        return [(k, "raise %s in %s" % (outcome[1], outcome[2]))]
+        cause = tok
+        if outcome[2] == "decide_literal_type" and "quote-then-caret" in f and tok in (None, "caret-caret-in-plain-literal"):
+            cause = "quote-then-caret-caret-in-lexical-form"
+        return [(cause or "other", "raise:" + outcome[1], "raise %s in %s: %s" % (outcome[1], outcome[2], outcome[3][:80]))]
     rows, errors = outcome[1]
     if len(rows) != 1:
         if not rows:
-            return [(key("error-line"), "statement dropped, error_triples=%d" % errors)]
-        return [(key("extra-triples"), "%d triples yielded" % len(rows))]
+            return [(tok or "other", "statement-dropped", "statement dropped, error_triples=%d" % errors)]
+        return [(tok or "other", "extra-triple", "%d triples yielded" % len(rows))]
     got = rows[0]
     out = []
     if errors:
-        out.append(("C06:error-count:nonzero-although-triple-yielded", "error_triples=%d" % errors))
+        out.append((tok or "other", "error-count", "error_triples=%d although the triple is yielded" % errors))
     if got[:2] != exp[:2]:
-        out.append((key("subject"), "subject %r instead of %r" % (got[:2], exp[:2])))
+        out.append((tok or "other", "wrong-node", "subject %r instead of %r" % (got[:2], exp[:2])))
     if got[2] != exp[2]:
-        out.append((key("predicate"), "predicate %r instead of %r" % (got[2], exp[2])))
+        out.append((tok or "other", "wrong-node", "predicate %r instead of %r" % (got[2], exp[2])))
     if got[3] != exp[3] or (exp[3] != "Literal" and got[4] != exp[4]):
-        out.append((key("object"), "object %r instead of %r" % (got[3:], exp[3:])))
+        out.append((tok or "other", "wrong-node", "object %r instead of %r" % (got[3:], exp[3:])))
         return out
     if exp[3] != "Literal":
         return out
     lex = o[1]
     if got[4] != exp[4]:
         cut = lex.find('\\"')
+        sym = "content %r instead of %r" % (got[4], exp[4])
         if cut >= 0 and got[4] == lex[:cut + 1]:
-            out.append(("C06:content:truncated-at-escaped-quote", "content %r instead of %r" % (got[4], exp[4])))
+            out.append(("content-truncated-at-escaped-quote", "wrong-content", sym))
         else:
-            out.append((key("content"), "content %r instead of %r" % (got[4], exp[4])))
+            out.append((tok or "other", "wrong-content", sym))
     if got[5] != exp[5]:
         sym = "datatype %r instead of %r" % (got[5], exp[5])
-        if "lang" in f and got[5] == XSD_STRING and "odd-comment" not in f:
-            out.append(("C06:lang-tag:reported-as-string", sym))
-        elif "quote-then-caret" in f:
-            out.append(("C06:escape:quote-then-caret-caret-in-lexical-form", sym))
-        elif cause is not None and cause[0] in ("hang", "tokenizer"):
-            out.append((key("datatype"), sym))
+        hard = tok in ("dot-glued-to-object-before-comment", "no-space-after-object", "trailing-comment-scanned-as-literal",
+                       "blank-node-subject-followed-by-tab", "caret-caret-then-space-inside-lexical-form")
+        if "quote-then-caret" in f and not hard:
+            cause = "quote-then-caret-caret-in-lexical-form"
+        elif hard:
+            cause = tok
+        elif "lang" in f and got[5] == XSD_STRING:
+            cause = "language-tag-not-detected"
         elif "dt" in f and "prefix-like-in-lex" in f:
-            out.append(("C06:datatype:prefix-like-substring-in-lexical-form", sym))
+            cause = "prefix-like-substring-in-lexical-form"
         elif "dt" in f and "prefix-like-in-datatype-iri" in f:
-            out.append(("C06:datatype:prefix-like-substring-in-datatype-iri", sym))
-        elif "lang" in f:
-            out.append(("C06:lang-tag:other", sym))
+            cause = "prefix-like-substring-in-datatype-iri"
         else:
-            out.append(("C06:datatype:other", sym))
+            cause = tok or "other"
+        out.append((cause, "wrong-datatype", sym))
     return out
+
+
+LAYOUT_CAUSES = ("no-space-after-object", "dot-glued-to-object-before-comment", "trailing-comment-scanned-as-literal",
+                 "blank-node-subject-followed-by-tab")
+
+
+def nt_attribute(case, outcome, read):
+    """nt_classify + counterfactuals for the layout (read(variant case) -> outcome of the reader on that line):
+      * a deviation that the same triple shows under the default layout too (single blanks, blank before the dot,
+        no comment), with the same symptom class, is not caused by the layout: it takes the category found there;
+      * what is left and already shows without the comment is put down to the separators;
+      * what needs a comment but shows with the harmless comment ' # c' as well is the dot glued to the object;
+      * what needs the odd characters of the comment is the comment being scanned as part of the literal."""
+    devs = nt_classify(case, outcome)
+    if not devs or tuple(case[3:]) == DEFAULT_LAYOUT:
+        return devs
+    s, p, o, sep1, sep2, sep3, comment = case
+    f = nt_features(case)
+    plain = dict((d[1], d[0]) for d in nt_classify((s, p, o) + DEFAULT_LAYOUT, read((s, p, o) + DEFAULT_LAYOUT)))
+    layout_cause = None
+    if any(sym not in plain for (_, sym, _) in devs):
+        def shows(variant):
+            return any(sym not in plain for (_, sym, _) in nt_classify(variant, read(variant)))
+        by_separators = "blank-node-subject-followed-by-tab" if "bnode-subject-followed-by-tab" in f and \
+            "dot-glued-to-object" not in f and "tab-after-object" not in f else "no-space-after-object"
+        if comment == "" or shows((s, p, o, sep1, sep2, sep3, "")):
+            layout_cause = by_separators
+        elif comment != " # c" and not shows((s, p, o, sep1, sep2, sep3, " # c")):
+            layout_cause = "trailing-comment-scanned-as-literal"
+        elif "dot-glued-to-object" in f:
+            layout_cause = "dot-glued-to-object-before-comment"
+        else:
+            layout_cause = "other"
+    return [(plain[sym] if sym in plain else layout_cause, sym, text) for (cat, sym, text) in devs]
 
 
 def nt_complexity(case):
@@ -395,7 +432,7 @@ def nt_complexity(case):
     n = (tuple(s) != S_DEFAULT) + (p != P_DEFAULT) + (sep1 != " ") + (sep2 != " ") + (sep3 != " ") + (comment != "")
     if o[0] == "L" and o[2] == "dt" and o[3] not in (XSD_ANYURI, DT_FOO, XSD_INTEGER):
         n += 1
-    return (n, len(nt_features(case) - set(["plain", "lang", "dt"])))
+    return (n, len(nt_features(case) - set(["plain", "lang", "dt", "comment"])))
 
 
 def nt_contents(L):
@@ -429,7 +466,7 @@ def nt_node_cases():
                 yield (s, p, o) + DEFAULT_LAYOUT
     small_s = [("I", IRIS[1]), ("B", "b1")]
     small_o = [("I", IRIS[1]), ("B", "b_2"), ("L", "x", "plain", None), ("L", "", "plain", None), ("L", "a 7", "plain", None),
-               ("L", "x", "lang", "en-GB"), ("L", "1", "dt", XSD_INTEGER)]
+               ("L", "x", "lang", "en-GB"), ("L", "a^^b .", "lang", "en"), ("L", "1", "dt", XSD_INTEGER)]
     for s in small_s:
         for o in small_o:
             for sep1 in SEPS + [" \t"]:
@@ -473,7 +510,7 @@ COMMENT_LINES = ["# a comment", "#", "   # indented comment", "# <http://ex.org/
 def nt_doc_check(items):
     """items: [("line", case) | ("comment", text) | ("blank", text)].  The document is compared with the
     line-wise behaviour of the reader itself (lines that deviate on their own are reported by the line
-    cases): -> (evaluated?, [(key, symptom)], document)."""
+    cases): -> (evaluated?, [(category, symptom class, description)], document)."""
     texts, per_line = [], []
     for kind, x in items:
         if kind == "line":
@@ -488,22 +525,23 @@ def nt_doc_check(items):
             per_line.append(([], 0))
     doc = "\n".join(texts) + "\n"
     r = read_nt(doc)
-    if r[0] != "ok":
-        return True, [("C06:document:%s-although-every-line-is-read-alone" % r[0], repr(r[1:]))], doc
+    comments = [x for k, x in items if k == "comment"]
+    cat = "comment-line-not-recognised" if comments else "document-differs-from-its-lines"
+    if r[0] == "hang":
+        return True, [(cat, "hang", "hang although every line is read alone")], doc
+    if r[0] == "raise":
+        return True, [(cat, "raise:" + r[1], "raise %s in %s although every line is read alone" % (r[1], r[2]))], doc
     rows, errors = r[1]
     want_rows = [row for (rs, e) in per_line for row in rs]
     want_err = sum(e for (rs, e) in per_line)
     out = []
-    if rows != want_rows or errors != want_err:
-        # comment lines explain themselves
-        extra_rows, extra_err = len(rows) - len(want_rows), errors - want_err
-        comments = [x for k, x in items if k == "comment"]
-        if comments and (extra_rows > 0 or extra_err > 0) and extra_rows >= 0 and extra_err >= 0:
-            out.append(("C06:comment-line:not-recognised", "%d comment line(s): %d extra triple(s) yielded, error_triples=%d instead of %d"
-                        % (len(comments), extra_rows, errors, want_err)))
-        if not out:
-            out.append(("C06:document:differs-from-linewise", "rows %r errors %d, line-wise %r errors %d"
-                        % (rows, errors, want_rows, want_err)))
+    if rows != want_rows:
+        out.append((cat, "extra-triple" if len(rows) > len(want_rows) else "statement-dropped" if len(rows) < len(want_rows) else "wrong-node",
+                    "%d triple(s) yielded, the lines one by one give %d%s" % (len(rows), len(want_rows),
+                                                                             " (%d comment line(s))" % len(comments) if comments else "")))
+    if errors != want_err:
+        out.append((cat, "error-count", "error_triples=%d, the lines one by one give %d%s"
+                    % (errors, want_err, " (%d comment line(s))" % len(comments) if comments else "")))
     return True, out, doc
 
 
@@ -766,34 +804,43 @@ def _row_diff(got, exp):
 
 
 def ttl_classify(case, outcome, exp_rows):
-    """-> [(key, symptom)]: the first deviation of a document from its expected rows, attributed to a root cause
-    by its symptom (exception type and site / which field differs how) and by the features of the document."""
+    """-> [(root-cause category, symptom class, description)]: the first deviation of a document from its expected
+    rows.  key = "C07:<category>:<symptom class>"; symptom classes: hang | raise:<ExceptionType> | wrong-node |
+    wrong-content | wrong-datatype | extra-triple | missing-triple.  The category comes from the symptom (exception
+    site / which field differs how) and the features of the document; what no rule claims is 'other'."""
     f = ttl_layout_features(case)
     st = outcome[0]
+
+    def feature_cause():
+        # features that are known to upset the reader, most specific first
+        if "comment-after-literal-with-unfound-bounds" in f or "hash-in-literal-at-line-start" in f:
+            return "comment-literal-bounds-not-found"
+        if "hash-in-later-literal-of-line" in f:
+            return "comment-hash-inside-later-literal"
+        return None
+
     if st == "hang":
-        return [("C07:hang:in-dialect-document", "hang")]
+        return [(feature_cause() or "other", "hang", "hang")]
     if st == "raise":
         etype, where = outcome[1], outcome[2]
         sym = "raise %s in %s: %s" % (etype, where, outcome[3][:80])
+        cause = None
         if etype == "IndexError" and where == "_find_next_quoted_literal_ending" and "eol-plain-literal" in f:
-            return [("C07:literal-at-eol:IndexError", sym)]
-        if etype == "ValueError" and where == "_find_next_quoted_literal_ending" and "lang" in f:
-            return [("C07:lang-tag:rejected-as-malformed-literal", sym)]
-        if etype == "RuntimeError" and where == "decide_literal_type" and "custom-prefixed-datatype" in f:
-            return [("C07:datatype:custom-prefix-not-expanded", sym)]
-        if etype == "IndexError" and where == "_remove_comments_if_needed" and "comment-after-literal-with-unfound-bounds" in f:
-            return [("C07:comment:literal-bounds-not-found", sym)]
-        if etype == "ValueError" and where == "_find_next_unescaped_quotes":
-            if "hash-in-later-literal-of-line" in f:
-                return [("C07:comment:hash-inside-later-literal-cut-as-comment", sym)]
-            if "hash-in-literal-at-line-start" in f or "comment-after-literal-with-unfound-bounds" in f:
-                return [("C07:comment:literal-bounds-not-found", sym)]
-        if "comment-after-literal-with-unfound-bounds" in f:
-            return [("C07:comment:literal-bounds-not-found", sym)]
-        if "eol-token" in f and where in ("_parse_elem", "unprefixize_uri_mandatory", "_assing_tmp_element_and_promote_state",
-                                          "decide_literal_type", "tune_subj", "tune_token", "remove_corners"):
-            return [("C07:line-final-token:last-char-dropped", sym)]
-        return [("C07:raise:%s-in-%s" % (etype, where), sym)]
+            cause = "literal-closing-quote-at-end-of-line"
+        elif etype == "ValueError" and where == "_find_next_quoted_literal_ending" and "lang" in f:
+            cause = "language-tag"
+        elif etype == "RuntimeError" and where == "decide_literal_type" and "custom-prefixed-datatype" in f:
+            cause = "custom-prefix-datatype"
+        elif etype == "IndexError" and where == "_remove_comments_if_needed" and "comment-after-literal-with-unfound-bounds" in f:
+            cause = "comment-literal-bounds-not-found"
+        elif etype == "ValueError" and where == "_find_next_unescaped_quotes" and "hash-in-later-literal-of-line" in f:
+            cause = "comment-hash-inside-later-literal"
+        elif feature_cause():
+            cause = feature_cause()
+        elif "eol-token" in f and where in ("_parse_elem", "unprefixize_uri_mandatory", "_assing_tmp_element_and_promote_state",
+                                            "decide_literal_type", "tune_subj", "tune_token", "remove_corners"):
+            cause = "line-final-token"
+        return [(cause or "other", "raise:" + etype, sym)]
     got = ttl_norm_rows(outcome[1])
     if got == exp_rows:
         return []
@@ -801,39 +848,39 @@ def ttl_classify(case, outcome, exp_rows):
     if len(got) != len(exp_rows) and "trailing-semicolon" in f:
         dedup = [r for i, r in enumerate(got) if i == 0 or r != got[i - 1]]
         if len(dedup) == len(exp_rows):
-            pre.append(("C07:trailing-semicolon:triple-yielded-twice", "%d triples yielded, %d expected: the triple before '; .' "
-                        "is yielded again" % (len(got), len(exp_rows))))
+            pre.append(("trailing-semicolon", "extra-triple", "%d triples yielded, %d expected: the triple before '; .' is yielded again"
+                        % (len(got), len(exp_rows))))
             got = dedup
             if got == exp_rows:
                 return pre
     if len(got) != len(exp_rows):
         sym = "%d triples yielded, %d expected" % (len(got), len(exp_rows))
-        if "eol-token" in f:
-            return pre + [("C07:line-final-token:last-char-dropped", sym)]
-        return pre + [("C07:triples:count-differs", sym)]
+        cause = feature_cause() or ("line-final-token" if "eol-token" in f else "other")
+        return pre + [(cause, "extra-triple" if len(got) > len(exp_rows) else "missing-triple", sym)]
     out = []
     for g, e in zip(got, exp_rows):
         for (field, gv, ev) in _row_diff(g, e):
             sym = "%s %r instead of %r" % (field, gv, ev)
             gs = gv[1] if field == "subject" else gv
             es = ev[1] if field == "subject" else ev
-            if field in ("subject", "predicate", "object", "content") and isinstance(gs, str) and isinstance(es, str) \
-                    and gs == es[:-1] and "eol-token" in f:
-                out.append(("C07:line-final-token:last-char-dropped", sym))
-            elif field in ("subject", "predicate", "object") and isinstance(es, str) and "base-fragment-or-path" in f \
+            cls = {"content": "wrong-content", "datatype": "wrong-datatype"}.get(field, "wrong-node")
+            strs = isinstance(gs, str) and isinstance(es, str)
+            if field in ("subject", "predicate", "object") and strs and "base-fragment-or-path" in f \
                     and (es.startswith(BASE + "#") or es.startswith("http://base.org/abs")):
-                out.append(("C07:base:fragment-or-path-reference-mis-resolved", sym))
-            elif field in ("subject", "predicate", "object") and isinstance(es, str) and es.startswith("urn:") and case.get("base"):
-                out.append(("C07:base:non-http-absolute-iri-treated-as-relative", sym))
-            elif field == "content" and "escaped-quote" in f and isinstance(gs, str) and es.startswith(gs.rstrip("\\")) and '"' in es:
-                out.append(("C07:literal-content:truncated-at-escaped-quote", sym))
-            elif field == "datatype" and "eol-token" in f and isinstance(gs, str) and isinstance(es, str) and gs == es[:-1]:
-                out.append(("C07:line-final-token:last-char-dropped", sym))
+                out.append(("base-fragment-or-path-reference", cls, sym))
+            elif field in ("subject", "predicate", "object") and strs and es.startswith("urn:") and case.get("base"):
+                out.append(("base-non-http-absolute-iri", cls, sym))
+            elif field == "content" and "escaped-quote" in f and strs and es.startswith(gs.rstrip("\\")) and '"' in es:
+                out.append(("content-truncated-at-escaped-quote", cls, sym))
+            elif field == "datatype" and "lang" in f and ev == RDF_LANGSTRING:
+                out.append(("language-tag", cls, sym))
+            elif strs and gs == es[:-1] and "eol-token" in f:
+                out.append(("line-final-token", cls, sym))
             else:
-                out.append(("C07:%s:other" % field, sym))
+                out.append((feature_cause() or "other", cls, sym))
         if out:
             break
-    return pre + (out or [("C07:triples:other", "rows differ")])
+    return pre + (out or [("other", "wrong-node", "rows differ")])
 
 
 # ------------------------------------------------------------------------------------------------
@@ -902,6 +949,8 @@ def ttl_term_cases():
         yield one("<http://ex.org/s1>", "<http://ex.org/p>", o, False, [" ", " ", " ", " # c\n"], "comments")
         yield one("<http://ex.org/s1>", "<http://ex.org/p>", o, False, [" ", "\n", " ", " # c\n"], "comments")
         yield one("<http://ex.org/s1>", "<http://ex.org/p>", o, False, [" # c\n", " # c\n", " ", "\n# c\n"], "comments")
+        yield one("<http://ex.org/s1>", "<http://ex.org/p>", o, False, [" ", " ", " ", " # see \"q\" ; , .\n"], "comments")
+        yield one("<http://ex.org/s1>", "<http://ex.org/p>", o, False, [" ", "\n", " ", " # see \"q\" ; , .\n"], "comments")
         for o2 in ('"x"', '"x # y"'):
             groups = [["<http://ex.org/s1>", [["<http://ex.org/p>", [o, o2]]], False]]
             yield {"groups": groups, "seps": [" ", " ", " ", " ", " ", "\n"], "base": False, "lead": "", "family": "comments"}
